@@ -70,6 +70,43 @@ def revolute_restart(h, first="RB", axis=2, seed=0):
     h.eq("spring energy at the restart state unchanged", e2.E_pot(t1, q1[e2.qDOF]), e0.E_pot(t1, q1[e0.qDOF]), tol=1e-9)
 
 
+def spherical_restart(h, seed=0):
+    """rigid body - Spherical - rigid body (both moving): the joint keeps connecting the same material points after re-initialisation"""
+    from cardillo import System
+    from cardillo.discrete import RigidBody
+    from cardillo.constraints import Spherical
+    from cardillo.math import Exp_SO3_quat
+    from cardillo.solver import SolverOptions
+    e0 = np.array([1.0, 0, 0, 0])
+    r_a0, r_b0, r_J0 = np.array([0.25, 0.0, 0.5]), np.array([1.0, 0.5, 0.25]), np.array([0.5, 0.25, 0.5])
+    a = RigidBody(1.5, np.diag([1.0, 2.0, 3.0]), q0=np.concatenate([r_a0, e0]), name="a")
+    b = RigidBody(2.0, np.diag([2.0, 1.0, 1.5]), q0=np.concatenate([r_b0, e0]), name="b")
+    j0 = Spherical(a, b, r_OJ0=r_J0, name="sph")
+    sysm = System()
+    sysm.add(a, b, j0)
+    opts = SolverOptions(compute_consistent_initial_conditions=False)
+    with h.capture():
+        sysm.assemble(options=opts)
+    # restart state on the joint manifold: first body free, second body's orientation free, its position closes the joint
+    r1, P1, P2 = h.vec("s_r1", 3), h.quat("s_P1"), h.quat("s_P2")
+    A1, A2 = Exp_SO3_quat(P1), Exp_SO3_quat(P2)
+    r2 = r1 + A1 @ (r_J0 - r_a0) - A2 @ (r_J0 - r_b0)
+    q1 = np.concatenate([r1, P1, r2, P2])
+    u1 = h.vec("s_u", sysm.nu)
+    copy = h.call("deepcopy + set_new_initial_state succeed", _restart, sysm, q1, u1, h.real("s_t"), opts)
+    if copy is None:
+        return
+    j1 = copy.contributions_map["sph"]
+    t, q, u = h.real("t"), h.vec("q", sysm.nq), h.vec("u", sysm.nu)
+    h.assume(q[3:7] @ q[3:7] > 0, "quaternion nonzero")
+    h.assume(q[10:14] @ q[10:14] > 0, "quaternion nonzero")
+    qJ, uJ = j0.qDOF, j0.uDOF
+    h.eq("g unchanged by re-initialisation", j1.g(t, q[qJ]), j0.g(t, q[qJ]))
+    h.eq("g_dot unchanged by re-initialisation", j1.g_dot(t, q[qJ], u[uJ]), j0.g_dot(t, q[qJ], u[uJ]))
+    h.eq("W_g unchanged by re-initialisation", j1.W_g(t, q[qJ]), j0.W_g(t, q[qJ]))
+    h.eq("the restart state satisfies the joint", j1.g(h.real("s_t"), q1[qJ]), np.zeros(3))
+
+
 def _quadrant_of(h, j, t, q):
     """quadrant of the joint angle at (t, q) computed by the joint's own routine on a scratch tracking state"""
     n0, p0 = j.n_full_rotations, j.previous_quadrant
@@ -127,4 +164,5 @@ def cases(tier, seed):
         for axis in (((seed + 1) % 3,) if tier == "quick" else (0, 1, 2)):
             cs.append(Case(f"revolute/{first}/ax{axis}", revolute_restart, dict(first=first, axis=axis, seed=seed), timeout=T, hard=T * 10, max_paths=64))
     cs.append(Case("contacts", contacts_restart, dict(seed=seed), timeout=T))
+    cs.append(Case("spherical/RB-RB", spherical_restart, dict(seed=seed), timeout=T, hard=T * 10))
     return cs
